@@ -47,6 +47,23 @@ LeastSquares ==
                  CIsZero(CAdd(Gram(p, i, 0),
                               CSumSeq([j \in 1..p |-> CMul(Gram(p, i, j), sol[p].A[j])])))
 
+\* C03 on the kernels: scaling the data by c multiplies every correlation sum by |c|^2,
+\* leaves the Yule-Walker coefficients unchanged and multiplies the variance by |c|^2
+ScaleSet == {CInt(2), CInt(-1), CI, CGauss(1, 1)}
+ScaledX(c) == [n \in 1..Len(x) |-> CMul(c, x[n])]
+RawOf(u, k) == CSumSeq([n \in 1..(Len(u) - k) |-> CMul(u[n + k], CConj(u[n]))])
+ScalingTheoremCorrelation ==
+    (phase \in {"done", "solved"} /\ Auto) =>
+        \A c \in (IF Complex THEN ScaleSet ELSE {CInt(2), CInt(-1)}) : \A k \in 0..(NN - 1) :
+            RawOf(ScaledX(c), k) = CScale(CAbs2(c), RawOf(x, k))
+ScalingTheoremYuleWalker ==
+    Solved => \A c \in (IF Complex THEN ScaleSet ELSE {CInt(2), CInt(-1)}) : \A p \in 1..(NN - 1) :
+        LET rs == [k \in 1..NN |-> CScale(CAbs2(c), out.biased[k])]
+            s2 == Lev(rs, p)
+        IN  /\ s2.A = sol[p].A
+            /\ s2.ref = sol[p].ref
+            /\ s2.P = RMul(CAbs2(c), sol[p].P)
+
 Nested ==
     Solved => \A p \in 2..(NN - 1) : SubSeq(sol[p].ref, 1, p - 1) = sol[p - 1].ref
 =============================================================================
